@@ -16,7 +16,7 @@ from typing import Any, Dict, List, Optional
 import pydantic
 from pydantic import BaseModel, TypeAdapter
 
-from sim.gen_worker import gen_worker_script
+from sim.gen_worker import gen_worker_script, tier_knobs
 from sim.rng import stream
 from sim.worker_world import DELIVERY, SOURCE_NS, EXC
 from sim.worker_world import simulate as _simulate
@@ -191,7 +191,7 @@ def gen(rs: int, tier: str, index: int) -> dict:
     use_retry = r.random() < 0.5
     if use_retry:
         kn["retry"] = {"count": 3, "label": True, "no_result_on_retry": r.random() < 0.5}
-    s = gen_worker_script(rs, kn)
+    s = gen_worker_script(rs, tier_knobs(kn, tier, index))
     tasks = []
     for ti in range(r.randint(1, 2)):
         sig = gen_signature(r, ti)
